@@ -735,6 +735,12 @@ func (te *tableEngine) PlayerFold(playerID string) error {
 		return ErrGamePlayerNotFound
 	}
 
+	// the hand's updater goroutine may already have moved on to the next round when Fold returns
+	foldRound := ""
+	if currentGameState := te.game.GetGameState(); currentGameState != nil {
+		foldRound = currentGameState.Status.Round
+	}
+
 	gs, err := te.game.Fold(gamePlayerIdx)
 	if err == nil {
 		te.table.State.LastPlayerGameAction = te.createPlayerGameAction(playerID, playerIdx, WagerAction_Fold, 0, gs.GetPlayer(gamePlayerIdx))
@@ -743,7 +749,7 @@ func (te *tableEngine) PlayerFold(playerID string) error {
 		playerState := te.table.State.PlayerStates[playerIdx]
 		playerState.GameStatistics.ActionTimes++
 		playerState.GameStatistics.IsFold = true
-		playerState.GameStatistics.FoldRound = te.game.GetGameState().Status.Round
+		playerState.GameStatistics.FoldRound = foldRound
 
 		if playerState.GameStatistics.IsFt3BChance {
 			playerState.GameStatistics.IsFt3B = true
